@@ -161,7 +161,9 @@ def mutate(h, kind, n):
     elif which == 1:
         h.type = "c20.type.%d" % n
     else:
-        if kind == "array" and np.dtype(h.dtype).kind in "if" and int(np.prod(h.shape)):
+        if kind == "array" and np.dtype(h.dtype).kind in "if" and int(np.prod(h.shape)) and \
+                not h.polynom_coefficients and not h.expansion_origin:
+            # (under a calibration the values read are not the values stored: a write need not show)
             h[:] = np.asarray(h[:]) + 1
         elif kind == "block":
             h.create_data_array("c20-new-%d" % n, "t", data=np.arange(3.0))
@@ -264,7 +266,7 @@ def run_case(case, ctx):
     flags = set()
     nontrivial = False
     try:
-        for op in ops.rich_prefix() + case.get("idlike", []) + case.get("build", []):
+        for op in ops.rich_prefix() + (LINK_CHAIN if case.get("chain") else []) + case.get("idlike", []) + case.get("build", []):
             it.step(op)
         pre = case.get("precopy")
         if pre:
@@ -579,6 +581,12 @@ IDLIKE_CHILDREN = [
 ]
 
 
+# a chain of section links: meta/sub/subsub --link--> other/sub (rich prefix) --link--> vendor (with a property of its own)
+LINK_CHAIN = [{"op": "mk_section", "p": None, "name": "vendor", "type": "t"},
+              {"op": "mk_prop", "sec": 5, "name": "vp", "vals": [7, 8]},
+              {"op": "sec_link", "t": 4, "target": 4}]
+
+
 def case_strategy():
     copy = st.fixed_dictionaries({
         "kind": st.sampled_from(KINDS + ["block", "section", "array"]), "t": ops.IDX, "d": ops.IDX,
@@ -586,6 +594,7 @@ def case_strategy():
         "keep": st.booleans(), "name": st.sampled_from([None, None, "copied", "ü copy", "sig", "meta", "tag", "blk0"]),
         "children": st.booleans(), "via": st.sampled_from(["owner", "owner", "link"])})
     return st.fixed_dictionaries({
+        "chain": st.sampled_from([True, True, False]),
         "idlike": st.lists(st.sampled_from(IDLIKE_CHILDREN), max_size=2, unique_by=lambda o: o["op"]),
         "build": ops.program(BUILD, min_size=0, max_size=12, name_pool=["sig", "sub", "p1", "6c2b6a52-9a2f-4d4b-8a3e-0d8f6f1c2a11",
                                                                                 "0f8fad5b-d9cb-469f-a165-70867728950e"]),
